@@ -123,6 +123,23 @@ CHECKS = {
              'by twin runs of seeded programs.',
         note='government built-in DEM_GOOD/PRIM_BAL excluded when the good is renamed (no constructor parameter)',
         ref='DESIGN.md 5/C18'),
+    'C17': dict(
+        technique='deterministic simulation: 2-4 sessions (model builds, stepped solvers, code generation, ID burners) '
+                  'interleaved at op / solver-period granularity by a seeded scheduler, logging + tracing + fs faults + '
+                  'aborting neighbours; bit-identical solo-twin oracle',
+        text='Seeded interleavings of independent parties over the process-global state (object ID counter, logger '
+             'handle table and cutoff, solver module namespace), with injected I/O faults and aborting neighbours; each '
+             'session must observe exactly what it observes alone.',
+        note='API-call granularity (no pre-emption: the library makes no thread-safety claim); observations exclude '
+             'object IDs and exception messages',
+        ref='DESIGN.md 5/C17'),
+    'C20': dict(
+        technique='deterministic simulation: generated module written through the fault-injecting file seam, loaded and '
+                  'stepped in lock-step with the in-process solver; substitute-back oracle per period',
+        text='Two implementations of the same stepped machine advanced side by side, the second reached only through a '
+             'file write + load; equations substituted back at every period.',
+        note='exogenous lists only (as the property states); contractive blocks so both machines converge',
+        ref='DESIGN.md 5/C20'),
 }
 
 NOT_APPLICABLE = [
